@@ -400,7 +400,10 @@ class Engine(osproxy.Sink):
             cur = self.ref.tab.get(name)
             if top.kind in ('release', 'release_all'):
                 if cur != top.actor:
-                    self.violate('release-removed-entry-of-other-owner',
+                    # (known finding: the release saw the entry as its own and it changed hands before the unlink;
+                    # a release that never saw itself as the owner - entry absent or foreign at its check - is another matter)
+                    self.violate('release-removed-entry-of-other-owner' if name in top.own_seen else
+                                 'release-removed-entry-it-never-saw-as-its-own',
                                  '%s released %s, which is held by %s' % (top.actor, name, cur),
                                  witness=dict(entry=name, holder=cur, releaser=top.actor,
                                               other_actors_inside=self.stack[0].nested), call=call)
